@@ -95,9 +95,28 @@ def run_specs(ctx, prop_file, specs, monitor_fns, sampler=None, rule=''):
     ]
     ctx.cov['rule'] = rule or ('each case is one scheduled run of the real TransferManager (scenario spec x fault x cancel point x schedule); '
                                'distinct = distinct hash of the linearised event trace; non-trivial = more than one thread took steps')
+    explore(ctx, specs, monitor_fns, sampler)
     if ctx.broken is not None:
-        # proofs / build broke: still explore the implementation for a failing run
-        pass
+        if not ctx.violations:
+            ctx.report('broken:' + ctx.broken.what, ctx.broken.what,
+                       {'kind': 'theorem', 'theorem_or_correspondence': ctx.broken.what, 'log': ctx.broken.log},
+                       no_input=True)
+
+
+def sub_runs(ctx, specs, monitor_fns, sampler=None):
+    """Scheduled runs of the real TransferManager inside a check that is not built on
+    run_specs (the caller lists the Sys-level theorem file it relies on among its
+    theorem files): builds the Sys validator, explores, validates, monitors."""
+    try:
+        with common.Lock():
+            common.build_locked('C05', EXTRACT, COMPONENTS)
+    except common.BuildBroken as b:
+        if ctx.broken is None:
+            ctx.broken = b
+    explore(ctx, specs, monitor_fns, sampler)
+
+
+def explore(ctx, specs, monitor_fns, sampler=None):
     runs, rejected = [], 0
     incomplete = set()
     B = 60
@@ -169,17 +188,12 @@ def run_specs(ctx, prop_file, specs, monitor_fns, sampler=None, rule=''):
         ctx.report('corr:instr:' + hashlib.sha1(what.encode()).hexdigest()[:10], what,
                    {'kind': 'correspondence', 'theorem_or_correspondence': 'trace validation against coq/model/Sys.v (extracted): instrumentation hooks',
                     'incomplete': sorted(incomplete)}, no_input=True)
-    ctx.cov['traces_validated_against_impl'] = ctx.cov['evaluations'] - rejected
-    ctx.cov['distinct_traces'] = len(traces_seen)
+    ctx.cov['traces_validated_against_impl'] = ctx.cov.get('traces_validated_against_impl', 0) + sum(1 for _ in specs) - rejected
+    ctx.cov['distinct_traces'] = ctx.cov.get('distinct_traces', 0) + len(traces_seen)
     for r in runs[:2]:
         ctx.sample({'component': 'sys-run', 'spec': r.spec, 'results': {k: list(v)[:2] for k, v in r.results.items()},
                     'steps': r.steps, 'events': len(r.trace),
                     'first_events': [f"{e['thread']}:{e['ev']}" for e in r.trace[:12]]})
-    if ctx.broken is not None:
-        if not ctx.violations:
-            ctx.report('broken:' + ctx.broken.what, ctx.broken.what,
-                       {'kind': 'theorem', 'theorem_or_correspondence': ctx.broken.what, 'log': ctx.broken.log},
-                       no_input=True)
 
 
 def replay_spec(ctx, data, monitor_fns, sampler=None):
@@ -314,6 +328,18 @@ def specs_nonthreaded_interrupt(ctx, kinds):
                                 s3_fault=dict(idx=idx, when=when, exc='kbi')))
             out.append(dict(transfers=[ts], cfg=CFG_SMALL, chooser={'kind': 'first'}, nonthreaded=True,
                             s3_fault=dict(idx=idx, when='before')))
+    return out
+
+
+def specs_failure_then_interrupt(ctx, kinds):
+    """A request fails and a LATER request of the same transfer is hit by Ctrl-C, everything
+    in the caller's thread (NonThreadedExecutor): the recorded failure must stay the outcome."""
+    out = []
+    for ts in kinds:
+        for i in range(5):
+            for j in range(i + 1, 7):
+                out.append(dict(transfers=[ts], cfg=CFG_SMALL, chooser={'kind': 'first'}, nonthreaded=True,
+                                s3_fault=[dict(idx=i, when='before'), dict(idx=j, when='before', exc='kbi')]))
     return out
 
 
